@@ -405,6 +405,32 @@ class CInterp(Interp):
     """Engine I plus the <ctype.h> enumerators (declared outside the repository, so the unit's own
     enum table does not know them)."""
 
+    crashes = None
+
+    def deref_target(self, b, n):
+        c = b
+        while isinstance(c, View) and len(c.cell.cands) == 1:
+            c = c.proj(c.cell.cands[0])
+        if isinstance(c, int) and not isinstance(c, bool) and c == 0 and n.kind == 'MemberExpr':
+            if self.crashes is None:
+                self.crashes = []
+            self.crashes.append('%s:%d' % (self.unit.name, n.line))
+        return Interp.deref_target(self, b, n)
+
+    def binop(self, op, a, b, n):
+        # a comparison of an opaque integer is signed or unsigned according to the C type the operands
+        # were converted to; keep that in the term so that the decision can be evaluated later
+        if op in ('==', '!=', '<', '<=', '>', '>=') and (is_opaque(a) or is_opaque(b)) and len(n.inner) == 2:
+            from .interp import int_type
+            ity = int_type(n.inner[0].dtype or n.inner[0].type)
+            if ity:
+                tag = 'as:%d%s' % (ity[0], 's' if ity[1] else 'u')
+                if is_opaque(a):
+                    a = Term(tag, a)
+                if is_opaque(b):
+                    b = Term(tag, b)
+        return Interp.binop(self, op, a, b, n)
+
     def e_DeclRefExpr(self, n, env):
         if n.ref_kind == 'EnumConstantDecl' and n.ref_name in CTYPE_BITS and self.unit.enum_value(n.ref_name) is None:
             return CTYPE_BITS[n.ref_name]
@@ -415,6 +441,9 @@ def run1(it, fname, args, unit=None):
     """run fname on concrete arguments; exactly one outcome is expected.
     returns (ctx, outcome); raises AnalysisBroken if the run forks or dies"""
     res = it.explore(fname, (lambda ctx: args(ctx)) if callable(args) else (lambda ctx: list(args)), max_paths=64, unit=unit)
+    if not res and getattr(it, 'crashes', None):
+        # fully concrete run that ends in `NULL->field`: the compiler itself would crash here
+        return it.ctx, ('crash', 'NULL pointer dereference', it.crashes[-1])
     if len(res) != 1:
         raise AnalysisBroken('%s: %d outcomes on a concrete input (expected exactly 1): %s' % (
             fname, len(res), '; '.join('/'.join(c.trail[-3:]) for c, _ in res[:3])))
